@@ -28,6 +28,11 @@ Wd == Apply(Rgx(Cls(<<48, 49, 50, 51>>)), Py(<<"fn", "int">>))   \* digit |> int
 
 Lam(kind, x) == Py(<<"lam", kind, <<"var", x>>>>)
 
+(* the bound name: "x", or a name that is also a Python builtin (the value bound in the grammar must win everywhere, *)
+(* also in code that the generator moves into a helper function)                                                      *)
+VARIABLE bn
+X == IF bn = 1 THEN "x" ELSE "max"
+
 (* what BODY does with the bound name x *)
 Use(u, x) ==
     CASE u = "whereeq" -> Right(Str(<<eqs>>), Where(W2, Lam("eq", x)))     \* like matching tags:  "=" >> (W where == x)
@@ -35,6 +40,8 @@ Use(u, x) ==
       [] u = "list"    -> Py(<<"lst", << <<"var", x>>, <<"var", x>> >> >>)
       [] u = "apply"   -> Apply(W2, Lam("pair", x))
       [] u = "applyl"  -> ApplyL(Lam("pair", x), W2)
+         \* the function of <| is itself parsed (it consumes "="), and it is parsed BEFORE its argument
+      [] u = "applylc" -> ApplyL(Right(Str(<<eqs>>), Lam("pair", x)), W2)
       [] u = "count"   -> Rep(Str(<<b>>), Nm(x), Nm(x))
       [] u = "lengt"   -> Where(W2, Lam("lengt", x))
       [] u = "tmpl"    -> Call("Echo", <<Pos(Ref(x))>>)
@@ -43,7 +50,7 @@ Use(u, x) ==
          \* the name is mentioned inside a compound argument (which the generator moves into a helper function)
       [] u = "argwhere" -> Right(Str(<<eqs>>), Call("Id", <<Pos(Where(W2, Lam("eq", x)))>>))
 
-Uses == {"whereeq", "value", "list", "apply", "applyl", "count", "lengt", "tmpl", "tmplkw", "wherene", "argwhere"}
+Uses == {"whereeq", "value", "list", "apply", "applyl", "applylc", "count", "lengt", "tmpl", "tmplkw", "wherene", "argwhere"}
 
 Src(u, w) == IF u = "count" THEN Wd ELSE w      \* a count needs a number
 
@@ -53,32 +60,32 @@ Binds == {"let", "field", "letfield", "param", "cparam", "reqfield"}
 (* the expression that binds x := w and evaluates body; class/template     *)
 (* bodies live in rules K / T (one binding form per grammar)               *)
 Bound(bf, w, sfx) ==
-    CASE bf = "let"      -> Let("x", w, Left(Ref("Body"), sfx))
+    CASE bf = "let"      -> Let(X, w, Left(Ref("Body"), sfx))
       [] bf = "field"    -> Left(Ref("K"), sfx)
       [] bf = "letfield" -> Left(Ref("K"), sfx)
       [] bf = "reqfield" -> Left(Ref("K"), sfx)
       [] bf = "param"    -> Let("q", w, Left(Call("T", <<Pos(Ref("q"))>>), sfx))
-      [] bf = "cparam"   -> Let("q", w, Left(Call("K", <<Kw("x", Ref("q"))>>), sfx))
+      [] bf = "cparam"   -> Let("q", w, Left(Call("K", <<Kw(X, Ref("q"))>>), sfx))
 
 Eps == Str(<<>>)
 
 (* Note: with "let", Body is evaluated inline (a rule cannot see the caller's x), *)
 (* so for "let" the use form is inlined instead of referenced.                    *)
-BoundLet(u, w, sfx) == Let("x", w, Left(Use(u, "x"), sfx))
+BoundLet(u, w, sfx) == Let(X, w, Left(Use(u, X), sfx))
 
 Bd(bf, u, w, sfx) == IF bf = "let" THEN BoundLet(u, w, sfx) ELSE Bound(bf, w, sfx)
 
 (* class / template holding the body for the non-let binding forms; the    *)
 (* class parses its own source `w` for field-style bindings                 *)
 KRule(bf, u, w) ==
-    CASE bf = "field"    -> Class(<<Field("x", w), Field("y", Use(u, "x"))>>)
-      [] bf = "letfield" -> Class(<<LetF("x", w), PassM(Eps), Field("y", Use(u, "x"))>>)
-      [] bf = "reqfield" -> Class(<<Field("x", w), Field("y", Use(u, "x")),
+    CASE bf = "field"    -> Class(<<Field(X, w), Field("y", Use(u, X))>>)
+      [] bf = "letfield" -> Class(<<LetF(X, w), PassM(Eps), Field("y", Use(u, X))>>)
+      [] bf = "reqfield" -> Class(<<Field(X, w), Field("y", Use(u, X)),
                                     Req(<<"eq", <<"len", <<"var", "y">>>>, <<"len", <<"var", "y">>>>>>)>>)
-      [] bf = "cparam"   -> ClassP(<<"x">>, <<Field("y", Use(u, "x"))>>)
+      [] bf = "cparam"   -> ClassP(<<X>>, <<Field("y", Use(u, X))>>)
       [] OTHER           -> Class(<<Field("y", Eps)>>)
 
-TRule(bf, u) == RuleP(<<"x">>, Use(u, "x"))
+TRule(bf, u) == RuleP(<<X>>, Use(u, X))
 
 Start(bf, u, c) ==
     LET w == Src(u, W1)  w2 == Src(u, W2) IN
@@ -90,29 +97,29 @@ Start(bf, u, c) ==
          \* recursion: the inner invocation binds the same name; the outer value is used afterwards
       [] c = 3 -> Ref("Rec")
          \* shadowing: the inner binding of the same name wins inside
-      [] c = 4 -> Let("x", Left(W2, Str(<<semi>>)), Bd(bf, u, w, Eps))
+      [] c = 4 -> Let(X, Left(W2, Str(<<semi>>)), Bd(bf, u, w, Eps))
          \* the same binding used twice in a sequence (sibling invocations)
       [] c = 5 -> Seq2(Bd(bf, u, w, Str(<<semi>>)), Bd(bf, u, w, Eps))
          \* a rule whose parameter is shadowed by an inner let, then ANOTHER rule with a parameter of the same name
          \* a let variable that has the name of a rule of the grammar (Id), passed on as an argument
       [] c = 7 -> Let("Id", w, Left(Call("Echo", <<Pos(Ref("Id"))>>), Eps))
          \* the binding expression of an inner let of the same name mentions the outer binding
-      [] c = 8 -> Let("x", w, Let("x", Py(<<"lst", << <<"var", "x">>, <<"var", "x">> >> >>), Left(Use(u, "x"), Eps)))
+      [] c = 8 -> Let(X, w, Let(X, Py(<<"lst", << <<"var", X>>, <<"var", X>> >> >>), Left(Use(u, X), Eps)))
       [] c = 6 -> Let("q", w, Seq2(Left(Call("ShA", <<Pos(Ref("q"))>>), Str(<<semi>>)), Call("ShB", <<Pos(Ref("q"))>>)))
 
 RecRule(bf, u) ==
     LET w == Src(u, W1) IN
-    Let("x", w, Seq3(Use(u, "x"),
+    Let(X, w, Seq3(Use(u, X),
                      Opt(Left(Right(Str(<<lpar>>), Ref("Rec")), Str(<<rpar>>))),
-                     Use(u, "x")))
+                     Use(u, X)))
 
 Grammar(bf, u, c) ==
     [rules |-> [start |-> Rule(Start(bf, u, c)),
                 K |-> KRule(bf, u, Src(u, W1)),
                 T |-> TRule(bf, u),
                 Rec |-> Rule(RecRule(bf, u)),
-                ShA |-> RuleP(<<"x">>, Let("x", Src(u, W2), Use(u, "x"))),
-                ShB |-> RuleP(<<"x">>, Use(u, "x")),
+                ShA |-> RuleP(<<X>>, Let(X, Src(u, W2), Use(u, X))),
+                ShB |-> RuleP(<<X>>, Use(u, X)),
                 Id |-> RuleP(<<"p">>, Ref("p")),
                 Echo |-> RuleP(<<"p">>, Seq2(W2, PyVar("p"))),
                 Same |-> RuleP(<<"q">>, Where(W2, Lam("eq", "q")))],
@@ -134,19 +141,21 @@ CountTexts == TextSeqUpTo(<<48, 49, two, b, semi>>, IF Tier = "quick" THEN 4 ELS
                <<two, b, lpar, 49, b, rpar, b>>, <<49, lpar, two, b, b, rpar, b>>, <<two, b, b, b, b>> >>
 
 VARIABLES bf, u, c, named, done
-vars == <<bf, u, c, named, done>>
+vars == <<bf, u, c, named, bn, done>>
 
 Init == /\ bf \in Binds /\ u \in Uses /\ c \in 0..8
         /\ (c = 7 => (bf = "let" /\ u = "value"))
         /\ (c = 8 => (bf = "let" /\ u \in {"value", "list", "apply"}))
         /\ (c \in {3, 6} => bf = "let")     \* the recursive rule and the shadowing rules use the let form
         /\ named \in {FALSE, TRUE}
+        /\ bn \in {1, 2}
+        /\ (bn = 2 => (c \in {0, 1} /\ u \in {"argwhere", "whereeq", "count", "list", "lengt"}))
         /\ (named => c \in {0, 6})          \* the named calling convention for the plain and the shadowing contexts
         /\ done = FALSE
 
 Step == /\ ~done
         /\ done' = TRUE
-        /\ UNCHANGED <<bf, u, c, named>>
+        /\ UNCHANGED <<bf, u, c, named, bn>>
         /\ EmitCase(Grammar(bf, u, c), IF named THEN [prop |-> "C05", name |-> "vg_c05"] ELSE [prop |-> "C05"],
                     <<"start">>, IF u = "count" THEN CountTexts ELSE Texts)
 
